@@ -216,6 +216,18 @@ func (e StdEng) Dot(x, y Tensor, opts ...FuncOpt) (retVal Tensor, err error) {
 			}
 			return New(FromScalar(ret)), nil
 		case b.IsMatrix():
+			// vec·M is computed as Mᵀ·vec. The operand must not be touched (it may be shared with other
+			// goroutines, and a pending lazy transpose of it must survive): transpose a private copy of its
+			// metadata that shares the data.
+			if bd, ok := b.(*Dense); ok {
+				bc := bd.ShallowClone()
+				if !bd.old.IsZero() {
+					bc.old = bd.old.Clone()
+					bc.transposeWith = append(make([]int, 0, len(bd.transposeWith)), bd.transposeWith...)
+				}
+				defer ReturnTensor(bc)
+				b = bc
+			}
 			b.T()
 			defer b.UT()
 			switch {
